@@ -474,6 +474,10 @@ def rule_lua_lines(ctx, res):
     added = None
     why = ''
     try:
+        if len(names) == 1 and next(iter(names)) == var:
+            # the loop variable itself keeps the last line
+            added = pred_lang(test, var)
+            names = set()
         if len(names) == 1:
             nm = names.pop()
             inloop = [(st, v) for (st, v) in assignments_to(w.node, nm)
